@@ -8,7 +8,7 @@
 (*     "REJ {id, clause, detail}"   (one JSON object, one line)            *)
 (* and the run continues, so every record gets a verdict.                  *)
 (***************************************************************************)
-EXTENDS Canon, ErrorPos, Json, IOUtils
+EXTENDS Canon, ErrorPos, DescentDefs, IOUtils
 
 Tr == ndJsonDeserialize(IOEnv.TRACE_FILE)
 
@@ -227,8 +227,60 @@ VEntry(r) ==
                                               <<ToJson([k \in bad |-> res[k].path])>>)
                           ELSE Acc
 
+(* ---- nondeterministic mode (C17) -------------------------------------------------- *)
+\* r.outputs: the distinct results (location sequences) over the outcomes of the random
+\* choices; r.complete: the whole choice tree was explored
+VNondet(r) ==
+    LET reg == RegOf(r)
+        cv  == CompileVerdict(r.q, reg, LoOf(r), HiOf(r))
+    IN  IF cv.v # "accept" THEN Acc
+        ELSE LET segs    == Parse(r.q, FALSE).v
+                 allowed == AllowedResults(segs, r.doc, reg)
+                 got     == {r.outputs[k] : k \in 1..Len(r.outputs)}
+             IN  IF got \ allowed # {} THEN
+                     Rej("C17 an ordering RFC 9535 does not permit was produced", <<ToJson(CHOOSE x \in got \ allowed : TRUE)>>)
+                 ELSE IF r.complete /\ allowed \ got # {} THEN
+                     Rej("C17 a permitted ordering is never produced", <<Cardinality(got), Cardinality(allowed),
+                                                                         ToJson(CHOOSE x \in allowed \ got : TRUE)>>)
+                 ELSE Acc
+
+(* ---- bounded traversal (C18) --------------------------------------------------------- *)
+\* r.limit: max_recursion_depth; r.mode: "det" | "rnd"; r.out: "ok" | "raise" | "timeout"
+\* the document is delivered as a spine (outermost level first) plus a leaf, and rebuilt here
+RECURSIVE BuildSpine(_, _)
+BuildSpine(levels, leaf) ==
+    IF levels = <<>> THEN leaf
+    ELSE LET L     == Head(levels)
+             inner == BuildSpine(Tail(levels), leaf)
+         IN  IF L.k = "arr" THEN Arr(L.before \o <<inner>> \o L.after)
+             ELSE Obj(L.before \o <<Mem(L.name, inner)>> \o L.after)
+VDepth(rr) ==
+    LET r    == [rr EXCEPT !.leaf = rr.leaf] @@ [doc |-> BuildSpine(rr.spine, rr.leaf)]
+        segs == Parse(r.q, FALSE).v
+        deep == Nesting(r.doc) > r.limit
+    IN  IF r.out = "timeout" THEN Rej("C18 traversal did not finish within the time limit", <<>>)
+        ELSE IF deep /\ r.out # "raise" THEN Rej("C18 data nested deeper than the limit did not raise", <<Nesting(r.doc), r.limit>>)
+        ELSE IF deep /\ r.cls # "JSONPathRecursionError" THEN Rej("C18 deep data raised something else than JSONPathRecursionError", <<r.cls>>)
+        ELSE IF ~deep /\ r.out # "ok" THEN Rej("C18 data within the limit raised", <<r.cls, Nesting(r.doc), r.limit>>)
+        ELSE IF ~deep /\ r.mode = "det" /\ r.locs # LocsOf(Find(segs, r.doc, Builtins)) THEN Rej("C18 result within the limit is not the full result", <<>>)
+        ELSE IF ~deep /\ r.mode = "rnd" /\ Len(r.locs) # Len(Find(segs, r.doc, Builtins)) THEN Rej("C18 result within the limit is not the full result", <<>>)
+        ELSE Acc
+
+\* chains whose nesting (r.nesting) and node count (r.count) are known by construction
+VDepthBig(r) ==
+    LET deep == r.nesting > r.limit
+    IN  IF r.out = "timeout" THEN Rej("C18 traversal did not finish within the time limit", <<>>)
+        ELSE IF deep /\ r.out # "raise" THEN Rej("C18 data nested deeper than the limit did not raise", <<r.nesting, r.limit>>)
+        ELSE IF deep /\ r.cls # "JSONPathRecursionError" THEN Rej("C18 deep data raised something else than JSONPathRecursionError", <<r.cls>>)
+        ELSE IF ~deep /\ r.out # "ok" THEN Rej("C18 data within the limit raised", <<r.cls, r.nesting, r.limit>>)
+        ELSE IF ~deep /\ r.n # r.count THEN Rej("C18 result within the limit is not the full result", <<>>)
+        ELSE Acc
+
 Verdict(r) ==
     CASE r.op = "compile" -> VCompile(r)
+      [] r.op = "depth"   -> VDepth(r)
+      [] r.op = "depthbig" -> VDepthBig(r)
+      [] r.op = "nondet"  -> VNondet(r)
       [] r.op = "entry"   -> VEntry(r)
       [] r.op = "lit"      -> VLit(r)
       [] r.op = "litrange" -> VLitRange(r)
